@@ -325,7 +325,7 @@ fn main() {
         let quick = check.tier == Tier::Quick;
         // quick: Build with a pre-existing archive and Compact get the full enumeration; the other
         // previous-state variants get every 3rd k
-        let stride = if quick && cfg.op == OpKind::Build && cfg.prev != Prev::Archive { 3 } else { 1 };
+        let stride = 1; // every k in both tiers (a quick run is a few seconds)
         for k in (1..=n).step_by(stride) {
             cases.push(Case { cfg: cfg.clone(), mode: Mode::KillBefore(k) });
             cases.push(Case { cfg: cfg.clone(), mode: Mode::KillAfter(k) });
@@ -336,9 +336,9 @@ fn main() {
                 cases.push(Case { cfg: cfg.clone(), mode: Mode::ShortWrite(k) });
             }
         }
-        let nq = if quick { 12u64 } else { 80 };
+        let nq = if quick { 24u64 } else { 120 };
         for q in 0..nq {
-            cases.push(Case { cfg: cfg.clone(), mode: Mode::Quota(q * 97 * if quick { 5 } else { 1 }) });
+            cases.push(Case { cfg: cfg.clone(), mode: Mode::Quota(q * 97 * if quick { 3 } else { 1 }) });
         }
     }
     check.set_extra("sandbox_calls_total", json!(total_calls));
